@@ -12,6 +12,8 @@ package main
 //   S<i> STALL <imap command...> | S<i> UNSTALL          (hist_c02.go: the command is sent and its answer is not read,
 //                                                          so the session stays inside the command and takes no update)
 //   C BULK <id> <mbox> <count> <flags|-> [<KiB>]         (hist_c02.go: one connector MessagesCreated batch)
+//   X FAILCONN | X FAILNEXT <kind> [n] | X FAILCLEAR     (hfc_hist.go: error paths - the connector's next call of a
+//                                                          kind fails, the command is answered NO)
 //
 // Scheduling: unless the history starts with `X RACY`, every session step first waits until all
 // sessions have applied the state updates queued so far (a barrier on the states only; the connector
@@ -66,6 +68,8 @@ type HistSession struct {
 	stalled   bool
 	stallTag  string
 	stallKind string
+	// X HOLD since the mailbox was selected: the session's view is outside the hypothesis NoOvertake (hfc_hist.go)
+	everHeld bool
 }
 
 type Violation struct {
@@ -93,6 +97,10 @@ type HistRunner struct {
 	// online multi-step pattern (hist_c02.go): returns the next step, "" when it is finished
 	pattern     func(r *Rng) string
 	patternsRun map[string]int
+	// error paths (hfc_hist.go): the failing connector when the history runs against one (X FAILCONN), the command
+	// kinds the generator still has to run through the error-path pattern
+	hfc     *hfcFailConn
+	hfcTodo []string
 }
 
 func mboxID(name string) imap.MailboxID {
@@ -284,6 +292,7 @@ func (h *HistRunner) exec1(step string) error {
 			if s := h.session(i); s != nil && s.stateID != 0 {
 				h.sys.Server.VerifHold(s.stateID)
 				s.held = true
+				s.everHeld = true
 			}
 		case "RELEASE":
 			i, k := atoi(f[2]), atoi(f[3])
@@ -299,6 +308,10 @@ func (h *HistRunner) exec1(step string) error {
 			h.racy = true
 		case "IDLEBULK":
 			// server option, read by runHistory before the server is started; a no-op as a step
+		default:
+			if handled, err := h.hfcExecX(f); handled {
+				return err
+			}
 		}
 		return nil
 	case f[0] == "C":
@@ -422,6 +435,7 @@ func (h *HistRunner) execSession(i int, op string, args []string, step string) e
 		}
 		s.selected = args[0]
 		s.readOnly = op == "EXAMINE"
+		s.everHeld = s.held
 		s.mirror = &goMirror{}
 		for k := 0; k < n; k++ {
 			s.mirror.msgs = append(s.mirror.msgs, goEntry{uid: -1})
@@ -440,6 +454,7 @@ func (h *HistRunner) execSession(i int, op string, args []string, step string) e
 		if rep.Err != nil {
 			return rep.Err
 		}
+		h.hfcAfterCommand("APPEND", rep)
 		h.feed(s, "APPEND", rep.Untagged)
 		return nil
 	case "CMD":
@@ -454,12 +469,18 @@ func (h *HistRunner) execSession(i int, op string, args []string, step string) e
 			return fmt.Errorf("S%d %s: %w", i, line, rep.Err)
 		}
 		defer vlog("   S%d => %s", s.idx, rep.Tagged)
+		h.hfcAfterCommand(kind, rep)
 		if kind == "CLOSE" || kind == "UNSELECT" {
 			if rep.Status == "OK" {
 				s.selected = ""
 				s.mirror = &goMirror{}
 				s.trace = append(s.trace, "RESET0")
+				return nil
 			}
+			// answered NO / BAD: the mailbox stays selected, and what the server sent before the tagged answer (the flush
+			// after a failed command) is what the client was told
+			h.stats["close.refused"]++
+			h.feed(s, kind, rep.Untagged)
 			return nil
 		}
 		h.feed(s, kind, rep.Untagged)
@@ -639,6 +660,13 @@ func (h *HistRunner) feedProbe(s *HistSession, rep Reply) {
 		rest = append(rest, u)
 	}
 	sort.SliceStable(results, func(i, j int) bool { return results[i].seq < results[j].seq })
+	shown := map[int]bool{}
+	for _, r := range results {
+		if p := strings.Split(canonResp(r.u)[1:], ":"); len(p) == 3 && p[2] != "~" {
+			shown[atoi(p[2])] = true
+		}
+	}
+	h.hfcRemovalAnnounced(s, shown)
 	for k, r := range results {
 		if r.seq != k+1 {
 			h.violate("C01", fmt.Sprintf("S%d: FETCH 1:* results do not cover sequence numbers 1..%d exactly once (got %d at position %d)", s.idx, len(results), r.seq, k+1))
@@ -782,6 +810,9 @@ func (h *HistRunner) GenStep(r *Rng, nsess int, profile string) string {
 		return st
 	}
 	if st := h.c02PatternStep(r, nsess, profile); st != "" {
+		return st
+	}
+	if st := h.hfcPatternStep(r, nsess, profile); st != "" {
 		return st
 	}
 	if strings.Contains(profile, "race") && !h.racy && len(h.steps) == 0 {
